@@ -77,9 +77,16 @@ QuotedOccurs(s, pat) == \E i \in 1..(Len(s) - Len(pat) + 1) :
                            /\ (i = 1 \/ SubSeq(s, i - 1, i - 1) \in Bound)
                            /\ (i + Len(pat) > Len(s) \/ SubSeq(s, i + Len(pat), i + Len(pat)) \in Bound)
 FragmentQuoted(e, text) == e.ci = e.cie \/ QuotedOccurs(e.msg, SubSeq(text, e.ci + 1, e.cie))
+\* ... and not MORE than it: where the message puts a proper part of the selected text between quote characters (and not the
+\* selected text itself), the offsets cover more than the fragment quoted.  e.quotes = the quote-delimited fragments of the message
+\* (split off by the harness).
+QuotesSmaller(e, text) == LET frag == SubSeq(text, e.ci + 1, e.cie) IN
+                          /\ e.ci < e.cie
+                          /\ \A k \in 1..Len(e.quotes) : e.quotes[k] # frag
+                          /\ \E k \in 1..Len(e.quotes) : Len(e.quotes[k]) > 0 /\ Len(e.quotes[k]) < Len(frag) /\ Occurs(frag, e.quotes[k])
 SuffixCount(e) == CountAt(e.msg, Suffix, 1)
 IssueOK(e, text) == /\ HasFields(e)
-                    /\ (e.hasoff => OffsetsInText(e, text) /\ InTagSpan(e) /\ FragmentQuoted(e, text)
+                    /\ (e.hasoff => OffsetsInText(e, text) /\ InTagSpan(e) /\ FragmentQuoted(e, text) /\ ~QuotesSmaller(e, text)
                                     /\ SuffixCount(e) = 1)
                     /\ (~e.hasoff => SuffixCount(e) = 0)
 \* which clause fails (for total verdicts)
@@ -88,6 +95,7 @@ Why(e, text) == IF ~HasFields(e) THEN "fields"
                 ELSE IF ~OffsetsInText(e, text) THEN "offsets-outside-text"
                 ELSE IF ~InTagSpan(e) THEN "offsets-outside-tag"
                 ELSE IF ~FragmentQuoted(e, text) THEN "fragment-not-quoted"
+                ELSE IF QuotesSmaller(e, text) THEN "offsets-cover-more-than-quoted"
                 ELSE IF SuffixCount(e) # 1 THEN "suffix-count" ELSE "ok"
 
 \* list level: signatures are strings, bags compared by counting
